@@ -445,8 +445,9 @@ class Interp(seq_detached.DetachedMixin, S.SeqRun):
         ra = tos[b % len(tos)]
         tgt = None if c % 4 == 0 else self.pick(c >> 2, ra.rel)
         tmid = tgt.mid if tgt is not None else None
-        if tmid == mo.mid:
-            tmid = None       # no direct self-reference (see op_coll)
+        if tmid == mo.mid and not ra.reverse.is_set:
+            tmid = None       # no one-to-one self-reference; p.boss = p (many-to-one) is legal API use and kept:
+                              # a new object that is its own boss is a cycle of one that no INSERT order resolves
         desc = 'rel %s#%d.%s=%s' % (mo.ent, mo.mid, ra.name, '#%d' % tmid if tmid else None)
 
         def pony():
@@ -1205,11 +1206,15 @@ class Interp(seq_detached.DetachedMixin, S.SeqRun):
 
     def op_flush(self):
         self.cur_op_desc = 'flush'
+        cyc = self.has_new_cycle()
         try:
             flush()
         except Exception as e:
             self.flush_failed(e, 'flush()')
             raise S.Poisoned()
+        if cyc:
+            self.cycle_flushed = True       # judged when the transaction commits (committed_ok)
+            self.probe('flush_accepted_cycle_among_new_objects')
         self.after_flush()
 
     def op_oflush(self, a, b, c):
@@ -1244,6 +1249,8 @@ class Interp(seq_detached.DetachedMixin, S.SeqRun):
 
     def op_commit(self):
         self.cur_op_desc = 'commit'
+        if self.has_new_cycle():
+            self.cycle_flushed = True
         try:
             commit()
         except Exception as e:
@@ -1261,7 +1268,14 @@ class Interp(seq_detached.DetachedMixin, S.SeqRun):
         for o in list(self.committed.objs.values()):
             if o.deleted:
                 pass
-        self.compare_db(self.committed, 'C09', 'committed-state-differs', when)
+        same = self.compare_db(self.committed, 'C09', 'committed-state-differs', when)
+        if not same and getattr(self, 'cycle_flushed', False):
+            # C16: a reference cycle among new objects that no statement order resolves has to be reported;
+            # here the flush reported nothing and what was committed is not what the session held
+            self.viol('C16', 'unorderable-cycle-saved-silently', when,
+                      'new objects referred to each other in a cycle (or to themselves); flush / commit raised nothing '
+                      'and the committed rows differ from the session\'s objects')
+        self.cycle_flushed = False
         self.probe('commit_ok')
 
     def op_rollback(self):
@@ -1282,6 +1296,7 @@ class Interp(seq_detached.DetachedMixin, S.SeqRun):
         self.taken_keys = set()
         self.session_clean = True
         self.fault_fired_in_session = False
+        self.cycle_flushed = False
 
     # ------------------------------------------------------------------ one session
     def run_session(self, si, sess):
@@ -1299,6 +1314,7 @@ class Interp(seq_detached.DetachedMixin, S.SeqRun):
         self.session_clean = True
         self.fault_fired_in_session = False
         self.blind = False
+        self.cycle_flushed = False
         self.released_keys = set()
         self.taken_keys = set()
         opts = dict(sess.get('opts') or {})
@@ -1357,6 +1373,8 @@ class Interp(seq_detached.DetachedMixin, S.SeqRun):
                     self.op_rollback()
                     ended = 'rollback'
                 self.cur_op_desc = 'session exit'
+                if self.view is not None and self.has_new_cycle():
+                    self.cycle_flushed = True
             # normal exit: the session committed
             if ended == 'exit':
                 self.committed_ok('session-exit')
